@@ -21,6 +21,7 @@
 """CAN C writer module."""
 
 import os
+import re
 
 from beartype.typing import Generator, List, Dict, Optional, Tuple
 from math import ceil
@@ -128,8 +129,12 @@ class CanSignal:
         # If the data type is not in the type map, it is a user defined type or a short type (i12, u5...) so we need to calculate the scalar type
         if self.data_type not in type_map.values():
             self.scalar_type = type_map[
-                "i" if self.signed else "u" + str(ceil_to_power_of_2(self.bit_length))
+                ("i" if self.signed else "u")
+                + str(ceil_to_power_of_2(self.bit_length))
             ]
+            # Short integers (u5, i12...) are stored in the smallest standard type
+            if re.fullmatch(r"[ui]\d+", self.data_type):
+                self.data_type = self.scalar_type
         else:
             self.scalar_type = self.data_type
 
